@@ -444,6 +444,39 @@ pub fn run(a: &Args) {
                 b.extend_from_slice(&[0x44, 0, 1, b'k', 0, 1, b'v', t, 0, 0, 0, 0, 3]);
                 corp.push((format!("tag2-{:02x}", t), b));
             }
+            // both entry points (parse / parse_parts), each async one against its own blocking one, on whole
+            // messages and on messages cut at the boundaries of the reader's exact reads
+            let mut done_small = 0usize;
+            for (id, bytes) in &corp {
+                if bytes.len() > 80 || id.starts_with("tag") || done_small >= (if quick { 40 } else { 200 }) {
+                    continue;
+                }
+                done_small += 1;
+                let tz = tokenize(bytes);
+                let mut cuts: Vec<usize> = vec![bytes.len()];
+                let mut acc = 0usize;
+                for e in &tz.elems {
+                    acc += *e;
+                    if acc < bytes.len() {
+                        cuts.push(acc);
+                    }
+                }
+                let stride = (cuts.len() / 16).max(1);
+                for (k, cut) in cuts.iter().enumerate() {
+                    if k % stride != 0 {
+                        continue;
+                    }
+                    let d = Arc::new(bytes[..*cut].to_vec());
+                    let cid = format!("{id}@{cut}");
+                    let (ev2, _) = cx.msg(&cid, &d);
+                    for parts in [true, false] {
+                        cx.run(&cid, "sync", &d, vec![], usize::MAX, parts, ev2, if parts { "reference: blocking parse_parts" } else { "reference: blocking parse" });
+                        let chunks: Vec<usize> = (0..d.len() + 1).map(|_| 1 + r.below(7)).collect();
+                        cx.run(&cid, "async", &d, with_pendings(&chunks, k, &mut r), 1 + r.below(5), parts, ev2, if parts { "parse_parts, cut at a read boundary" } else { "parse, cut at a read boundary" });
+                        cx.cmp(&cid);
+                    }
+                }
+            }
             for (id, bytes) in &corp {
                 let data = Arc::new(bytes.clone());
                 let (endv, _) = cx.msg(id, &data);
